@@ -19,7 +19,7 @@ fn plain_struct(d: &Decl) -> String {
     }
     let der = if derives.is_empty() { String::new() } else { format!("#[derive({})]\n", derives.join(", ")) };
     let g = match d.inner {
-        Inner::GenVec => "<T>",
+        Inner::GenVec | Inner::GenT => "<T>",
         Inner::Cow => "<'a>",
         _ => "",
     };
@@ -172,7 +172,8 @@ pub fn subject_module(i: usize, s: &Subj) -> String {
                 let _ = writeln!(m, "        fn from_str(&self, s: &str) -> Outcome {{ guard(|| h_result(<T as ::core::str::FromStr>::from_str(s), |t: T| t.into_inner(), |e: &::core::convert::Infallible| match *e {{}})) }}");
             }
         } else {
-            let pe = format!("{name}ParseError");
+            // generic newtypes have a generic ParseError<T>: name the instantiation explicitly
+            let pe = if d.inner == Inner::GenT { format!("{name}ParseError::<i32>") } else { format!("{name}ParseError") };
             let validate_arm = if hv { format!("                    Err({pe}::Validate(e)) => {{ let variant = ename(&e).to_string(); Outcome::Err {{ variant, display: {pe}::Validate(e).to_string() }} }}\n") } else { String::new() };
             let _ = writeln!(
                 m,
@@ -243,6 +244,12 @@ pub fn subject_module(i: usize, s: &Subj) -> String {
         }
         if d.derives(Tr::Hash) {
             let _ = writeln!(b, "                w.hash_t = Some(rec_hash(&t));");
+        }
+        if d.derives(Tr::PartialEq) {
+            let _ = writeln!(b, "                #[allow(clippy::eq_op)] {{ w.eq_self = Some(t == t); }}");
+        }
+        if d.derives(Tr::PartialOrd) {
+            let _ = writeln!(b, "                w.partial_self = Some(t.partial_cmp(&t));");
         }
         if d.derives(Tr::Serialize) {
             let _ = writeln!(b, "                w.ser_events = Some(record_events(&t));");
